@@ -31,5 +31,7 @@ Record facts : Set := {
   f_cron_min_interval_s : Z;
   f_cron_tolerance_s : Z;
   f_cron_window_inclusive : bool;   (* 0 <= diff <= window *)
-  f_cron_min_interval_strict : bool (* refused when since_last < min_interval *)
+  f_cron_min_interval_strict : bool; (* refused when since_last < min_interval *)
+  (* base_trigger.py:_should_trigger_cron_condition *)
+  f_cron_first_poll_checked : bool  (* is_satisfied_by is also consulted when no last execution is stored *)
 }.
